@@ -161,9 +161,16 @@ pub fn check(c: &Case) -> CheckResult {
             colours.insert(got[i]);
             // sweep: the angle is discontinuous along the ray at angle 0; pixels within half a pixel of it are ambiguous
             if let SrcSpec::Sweep { cx, cy, .. } = &c.src {
+                // (distances in device pixels: the centre and the ray mapped through the CTM)
                 let (dx, dy) = (user.0 - *cx as f64, user.1 - *cy as f64);
-                let r = (dx * dx + dy * dy).sqrt();
-                if r < 1.5 || (dx > 0.0 && dy.abs() < 0.75) {
+                let m = &c.ctm;
+                let dev = (dx * m[0] as f64 + dy * m[2] as f64, dx * m[1] as f64 + dy * m[3] as f64);
+                let ray = (m[0] as f64, m[1] as f64);
+                let rl = (ray.0 * ray.0 + ray.1 * ray.1).sqrt();
+                let r = (dev.0 * dev.0 + dev.1 * dev.1).sqrt();
+                let along = (dev.0 * ray.0 + dev.1 * ray.1) / rl;
+                let across = (dev.0 * ray.1 - dev.1 * ray.0).abs() / rl;
+                if r < 1.5 || (along > 0.0 && across < 0.75) {
                     o.undecided += 1;
                     continue;
                 }
@@ -306,6 +313,11 @@ pub fn check(c: &Case) -> CheckResult {
     o.class(c.src.kind());
     o.class(["spread:pad", "spread:repeat", "spread:reflect"][spread as usize]);
     o.class(classify_xf(&c.ctm));
+    {
+        let sc = (xf_det(&c.ctm).abs()).sqrt();
+        o.class_if(sc >= 1000.0, "ctm-scale>=1000");
+        o.class_if(sc <= 0.05, "ctm-scale<=1/20");
+    }
     o.class_if(tmin < 0.0, "t<0-seen");
     o.class_if(tmax > 1.0, "t>1-seen");
     o.class_if(a255 < 255.0, "alpha<1");
@@ -352,9 +364,42 @@ pub fn strategy(ctx: &Ctx) -> BoxedStrategy<Case> {
                 g
             });
             let alpha = if alpha_open { Just(1.0f32).boxed() } else { prop_oneof![3 => Just(1.0f32), 1 => Just(0.5f32), 2 => 0.0f32..=1.0].boxed() };
-            (Just((w, h)), src, alpha, prop_oneof![2 => Just(IDENT), 3 => xf_invertible(6.0)])
+            // zoom: the same picture described in user units that are `zoom` times smaller under a CTM that is
+            // `zoom` times larger (a drawing in metres shown at 1:4096, or in device-independent units at 1/64)
+            let zoom = prop_oneof![10 => Just(1.0f32), 1 => Just(4096.0f32), 1 => Just(65536.0f32), 1 => Just(256.0f32), 1 => Just(1.0f32 / 64.0)];
+            (Just((w, h)), src, alpha, prop_oneof![2 => Just(IDENT), 3 => xf_invertible(6.0)], zoom)
         })
-        .prop_map(|((w, h), src, alpha, ctm)| Case { w, h, src, alpha, ctm })
+        .prop_map(|((w, h), mut src, alpha, mut ctm, z)| {
+            if z != 1.0 {
+                match &mut src {
+                    SrcSpec::Linear { x0, y0, x1, y1, .. } => {
+                        for v in [x0, y0, x1, y1] {
+                            *v /= z;
+                        }
+                    }
+                    SrcSpec::Radial { cx, cy, r, .. } => {
+                        for v in [cx, cy, r] {
+                            *v /= z;
+                        }
+                    }
+                    SrcSpec::TwoCircle { x1, y1, r1, x2, y2, r2, .. } => {
+                        for v in [x1, y1, r1, x2, y2, r2] {
+                            *v /= z;
+                        }
+                    }
+                    SrcSpec::Sweep { cx, cy, .. } => {
+                        for v in [cx, cy] {
+                            *v /= z;
+                        }
+                    }
+                    _ => {}
+                }
+                for v in ctm.iter_mut().take(4) {
+                    *v *= z;
+                }
+            }
+            Case { w, h, src, alpha, ctm }
+        })
         .boxed()
 }
 
@@ -362,10 +407,10 @@ pub fn property(ctx: &Ctx) -> Property {
     let c = ctx.clone();
     Property {
         id: "C12",
-        rule: "cases: linear (extent >= 1 px), radial (r >= 1), two-circle (first circle strictly inside the second) and sweep gradients built with the Source::new_* constructors; 1-5 stops at strictly increasing positions (gaps >= 0.02, ends not necessarily 0/1) with random unpremultiplied colours or probe ramps; Pad/Repeat/Reflect; global alpha; identity or any invertible CTM; 4..24 px surfaces, rendered with a full-surface Src fill. Oracle: f64 parameter t per pixel centre (through the inverse CTM) by the statement's definitions, colour = piecewise-linear interpolation of the unpremultiplied stops after the spread map, premultiplied and scaled by alpha; every channel must lie within 4/255 of the range that colour takes for t within 3/255 (+|t|/255 for two-circle and sweep) of the pixel's t; Pad pixels beyond an end all show one identical colour; two-circle pixels without admissible circle are transparent. Non-trivial: >=3 distinct colours on the surface and t spanning >= 0.25; distinct by hash of the case.",
+        rule: "cases: linear (extent >= 1 px), radial (r >= 1), two-circle (first circle strictly inside the second) and sweep gradients built with the Source::new_* constructors; 1-5 stops at strictly increasing positions (gaps >= 0.02, ends not necessarily 0/1) with random unpremultiplied colours or probe ramps; Pad/Repeat/Reflect; global alpha; identity or any invertible CTM, optionally with user space zoomed (units 256, 4096 or 65536 times smaller, or 64 times larger, under a correspondingly scaled CTM); 4..24 px surfaces, rendered with a full-surface Src fill. Oracle: f64 parameter t per pixel centre (through the inverse CTM) by the statement's definitions, colour = piecewise-linear interpolation of the unpremultiplied stops after the spread map, premultiplied and scaled by alpha; every channel must lie within 4/255 of the range that colour takes for t within 3/255 (+|t|/255 for two-circle and sweep) of the pixel's t; Pad pixels beyond an end all show one identical colour; two-circle pixels without admissible circle are transparent. Non-trivial: >=3 distinct colours on the surface and t spanning >= 0.25; distinct by hash of the case.",
         assumptions: vec!["sweep pixels within 1.5 px of the centre or within 0.75 px of the angle-0 ray are not judged (angle discontinuity inside the pixel)"],
         parts: vec![part("render", 60_000, 1_000_000, move || strategy(&c), check)],
-        min_class_fraction: vec![("render", "src:linear", 0.15), ("render", "src:radial", 0.15), ("render", "src:twocircle", 0.15), ("render", "src:sweep", 0.15), ("render", "spread:reflect", 0.2), ("render", "t>1-seen", 0.3), ("render", "t<0-seen", 0.1), ("render", "linear:horizontal-right-to-left", 0.005), ("render", "linear:vertical", 0.01), ("render", "twocircle:focal-point", 0.02), ("render", "twocircle:centres-share-one-coordinate", 0.03)],
+        min_class_fraction: vec![("render", "src:linear", 0.15), ("render", "src:radial", 0.15), ("render", "src:twocircle", 0.15), ("render", "src:sweep", 0.15), ("render", "spread:reflect", 0.2), ("render", "t>1-seen", 0.3), ("render", "t<0-seen", 0.1), ("render", "linear:horizontal-right-to-left", 0.005), ("render", "linear:vertical", 0.01), ("render", "twocircle:focal-point", 0.02), ("render", "twocircle:centres-share-one-coordinate", 0.03), ("render", "ctm-scale>=1000", 0.05)],
         panic_is_violation: false,
     }
 }
